@@ -29,7 +29,12 @@ static EbHandle v_new(int kind, unsigned count, unsigned max) {
 }
 int v_live_mutex, v_live_sem, v_live_thread;
 int v_cur_thread = -1;
-int v_create_may_fail = 0;   /* harness switch: creation of OS objects may fail (C16) */
+int v_create_may_fail = 0;   /* harness switch: creation of OS objects takes part in the single-failure schedule of alloc_model.h (C16) */
+#ifdef ALLOC_MODEL_H
+#define V_CREATE_FAILS() (v_create_may_fail && v_should_fail())
+#else
+#define V_CREATE_FAILS() (v_create_may_fail && vinbool())
+#endif
 #ifndef V_YIELD
 #define V_YIELD(why, obj) do { } while (0)
 #endif
@@ -41,7 +46,7 @@ int v_create_may_fail = 0;   /* harness switch: creation of OS objects may fail 
 #define V_MUTEX_CONTENDED(m) do { V_ASSERT(0, "mutex acquired while already held (self-deadlock / missing unlock)"); V_ASSUME(0); } while (0)
 #endif
 EbHandle svt_create_mutex(void) {
-    if (v_create_may_fail && vinbool()) return NULL;
+    if (V_CREATE_FAILS()) return NULL;
     v_live_mutex++;
     return v_new(1, 0, 0);
 }
@@ -68,7 +73,7 @@ EbErrorType svt_release_mutex(EbHandle h) {
     return EB_ErrorNone;
 }
 EbHandle svt_create_semaphore(uint32_t initial_count, uint32_t max_count) {
-    if (v_create_may_fail && vinbool()) return NULL;
+    if (V_CREATE_FAILS()) return NULL;
     v_live_sem++;
     return v_new(2, initial_count, max_count);
 }
